@@ -63,6 +63,44 @@ def repo_test_traces():
         common.rmwork(work)
 
 
+def cli_report_check(scs, rep, cov, tier):
+    """the solve command's printed verdict against the solver's own (CliReport.tla)"""
+    import re
+    import cli_driver
+    import content_checks
+    obs, meta = [], {}
+    work = common.mkwork()
+    try:
+        for n, sc in enumerate(scs[: (12 if tier == "quick" else 200)]):
+            path = os.path.join(work, "in_%d.habutax" % n)
+            conf = runs.make_config({k2: v.replace("%", "%%") for k2, v in sc["given"].items()})
+            with open(path, "w") as f:
+                conf.write(f)
+            kb = cli_driver.Keyboard({}, default=None)
+            r = cli_driver.run_solve(sc["year"], sc["request"], path, kb, solution_path=os.path.join(work, "sol_%d" % n), prompt=False, writeback=False)
+            out = r["stdout"]
+            sec = lambda title: (out.split(title, 1)[1].split("\n\n", 1)[0] if title in out else "")
+            p_un = re.findall(r"^- (\S+)$", sec("The following fields encountered unimplemented behavior:"), re.M)
+            p_mi = re.findall(r"^(\S+) \(needed by:", sec("The following inputs were needed but not supplied:"), re.M)
+            p_bl = re.findall(r"^(\S+) \(needed by:", sec("The following fields were needed but unable to be produced"), re.M)
+            res = sc["res"]
+            oid = len(obs) + 1
+            obs.append({"oid": oid, "abort": res["abort"], "solved": bool(res.get("solved")), "unimpl": res.get("unimpl", []),
+                        "missing": sorted(res.get("missing", {})), "blocked": sorted(res.get("blocked", {})), "exc": r["exc"],
+                        "said_solved": "Successfully solved!" in out, "said_failed": "Failed to solve, because" in out,
+                        "p_unimpl": p_un, "p_missing": p_mi, "p_blocked": p_bl})
+            meta[oid] = sc
+        rows, res_t = content_checks.run_oracle("CliReport", "HV_CLI_FILE", {"obs": obs}, work, "CLI")
+    finally:
+        common.rmwork(work)
+    if res_t.distinct != len(obs) + 1:
+        raise common.MachineryError("CliReport.tla judged %d of %d" % (res_t.distinct - 1, len(obs)))
+    for row in rows:
+        sc = meta[int(row[0])]
+        rep.violation("cli:%d:%s" % (sc["year"], row[1][:70]), "%s (%s)" % (row[1], sc["sid"]), {"kind": "scenario", "year": sc["year"], "request": sc["request"], "given": sc["given"]})
+    cov["cli_reports_checked"] = len(obs)
+
+
 def run(pid, tier, rep, cov, owner_of):
     sd = common.seed()
     work = common.mkwork()
@@ -104,6 +142,8 @@ def run(pid, tier, rep, cov, owner_of):
                         if nasks:
                             rep.violation("real:%s:re-run on the written-back answers asks again" % sc["sid"], "%d prompts" % nasks,
                                           {"kind": "real-run-pair", "year": sc["year"], "given": sc["given"]})
+        if pid == "C01":
+            cli_report_check(scs, rep, cov, tier)
         cov["real_form_traces_validated"] = len(traces) - len(rt["traces"])
         cov["repo_test_traces_validated"] = len(rt["traces"])
         cov["real_trace_events"] = sum(len(t["events"]) for t in traces)
